@@ -69,6 +69,21 @@ MUTANTS = [
     ("c08-negative-plays-positive", PARSER, "noteNeg = byte(*analog.NoteNegative)", "noteNeg = byte(*analog.Note)", ["C08", "C10"]),
     ("c08-unguarded-negative", EVS, "if !ok && analog.Bidirectional {", "if !ok {", ["C08"]),
     ("c08-jump-keeps-other-direction", EVS, "\t\t\t\td.AnalogNoteOn(identifier, analog.Note, analog.ChannelOffset, ie)\n\t\t\t}\n\t\t\td.AnalogNoteOff(identifierNeg, ie)", "\t\t\t\td.AnalogNoteOn(identifier, analog.Note, analog.ChannelOffset, ie)\n\t\t\t}", ["C08", "C01"]),
+    ("c05-panic-unmasked-channel", PARSER, "if cfg.Defaults.Channel < 1 || cfg.Defaults.Channel > 16 {", "if cfg.Defaults.Channel < 0 || cfg.Defaults.Channel > 16 {", ["C05", "C10"]),
+    ("c05-cc-drop-mod16", EVS, "\t\tchannel := (d.channel + analog.ChannelOffset) % 16\n\t\tchannelNeg", "\t\tchannel := (d.channel + analog.ChannelOffset)\n\t\tchannelNeg", ["C05", "C06"]),
+    ("c05-bend-overflow", MIDIEV, "target = 8192 + int(val*8191)", "target = 8192 + int(val*8192)", ["C05", "C06"]),
+    ("c09-nil-action-negative", PARSER, "if analog.ActionNegative != nil {", "if analog.Action != nil {", ["C09", "C10"]),
+    ("c09-unguarded-decoder", PARSER, "err := decodeTOML(d, &cfg)", "err := d.Decode(&cfg)", ["C09"]),
+    ("c09-index-first-mapping", PARSER, "\tif mappingIndex == -1 {\n\t\treturn Config{}, fmt.Errorf(\"default mapping", "\tif mappingIndex == -1 && len(keyMapping[0].Name) > 100 {\n\t\treturn Config{}, fmt.Errorf(\"default mapping", ["C09", "C10"]),
+    ("c10-offset-dropped-for-names", PARSER, "midiMappingTmp[evcode] = Key{Note: note, ChannelOffset: byte(offsetInt)}", "midiMappingTmp[evcode] = Key{Note: note}", ["C10"]),
+    ("c10-flip-ignored-for-bend", PARSER, "\t\t\t\t\t\tMappingType:      mappingType,\n\t\t\t\t\t\tFlipAxis:         analog.FlipAxis,\n\t\t\t\t\t\tChannelOffset:    byte(analog.ChannelOffset),",
+     "\t\t\t\t\t\tMappingType:      mappingType,\n\t\t\t\t\t\tChannelOffset:    byte(analog.ChannelOffset),", ["C10"]),
+    ("c10-ccneg-range-unchecked", PARSER, "if *analog.CCNegative < 0 || *analog.CCNegative > 119 {", "if *analog.CCNegative < 0 {", ["C10"]),
+    ("c10-unknown-fields-allowed", PARSER, "\td.DisallowUnknownFields()\n", "", ["C10"]),
+    ("c10-exit-order-reversed", PARSER, "exitSequence = append(exitSequence, evcode)", "exitSequence = append([]evdev.EvCode{evcode}, exitSequence...)", ["C10"]),
+    ("c10-green-blue-swapped", PARSER, "\t\t\tGreen: byte(v >> 8),\n\t\t\tBlue:  byte(v),", "\t\t\tGreen: byte(v),\n\t\t\tBlue:  byte(v >> 8),", ["C10"]),
+    ("c10-velocity-0-kept", PARSER, "\tif velocity == 0 {\n\t\tvelocity = 64\n\t}", "", ["C10"]),
+    ("c10-deadzone-specific-dropped", PARSER, "deadzonesTmp[evcode] = value", "if value != 0.33 {\n\t\t\t\t\tdeadzonesTmp[evcode] = value\n\t\t\t\t}", ["C10"]),
     ("c14-check-before-insert", EVS,
      "\t\td.keyTracker[ie.Event.Code] = struct{}{}\n\t\tok := d.checkExitSequence()", "\t\tok := d.checkExitSequence()\n\t\td.keyTracker[ie.Event.Code] = struct{}{}", ["C14"]),
     ("c14-not-swallowed", EVS, "\t\t\t// this simple hack prevents from hanging\n\t\t\treturn", "\t\t\t// this simple hack prevents from hanging", ["C14"]),
